@@ -137,6 +137,15 @@ def check_case(ck, drv, r, case, tier, tag, prep=None, base=None):
             os_ = [x for x in ([o] if o else []) if set(x) == set(b["units"])] or orders_for(rng("shrink"), b["units"], "quick")[0]
             return bool(order_oracle(c, [(None, b)] + [(x, wf_run.run_prepared(p, order=x)) for x in os_], limit))
         small = c01.shrink(case, fails) if len(ck.violations) < 3 else case
+        if small is not case:       # name an order of the *small* case under which it fails
+            try:
+                p2, b2 = prepare_and_base(small)
+                os2 = ([o] if o and set(o) == set(b2["units"]) else []) + orders_for(rng("shrink"), b2["units"], "thorough")[0][:120]
+                bad2 = order_oracle(small, [(None, b2)] + [(x, wf_run.run_prepared(p2, order=x)) for x in os2], limit)
+                if bad2:
+                    o, what = bad2[0]
+            except Infra:
+                pass
         ck.violate({"case": c01.compact(small), "order": o}, what)
     # correspondence: every realised schedule through the model's asynchronous semantics
     reqs = [gen_wf.to_req(case, schedule=obs["events"]) for _, obs in runs]
